@@ -102,3 +102,8 @@ Proof.
   - eapply Forall_impl; [|exact Hreal]. intros [k lx0] Hk Heq. cbn [fst] in *. subst k. discriminate.
   - constructor; [cbn; discriminate | constructor].
 Qed.
+
+(* the grammar recovered from the current tables is the reference grammar (spec/RefGrammar.v) *)
+Require Import Grits.spec.RefGrammar.
+Lemma grammar_is_reference : tR1 = ref_lhs_tab /\ tRhs = ref_rhs_tab.
+Proof. split; vm_compute; reflexivity. Qed.
